@@ -9,6 +9,7 @@ package explore
 
 import (
 	"fmt"
+	"hash/fnv"
 	"sync"
 	"sync/atomic"
 	"time"
@@ -79,7 +80,14 @@ type Config struct {
 	Deadline time.Time // zero = none
 	// MaxLevelWidth caps the number of prefixes kept for one level (memory guard); 0 = 4M.
 	MaxLevelWidth int
+	// Shard/Shards: explore only the subtrees of the level-1 vectors whose index is congruent to Shard modulo Shards
+	// (the all-default vector itself is executed by every shard: its picks define level 1). 0 Shards = DefaultShards.
+	Shard, Shards int
 }
+
+// DefaultShard/DefaultShards apply when a Config names no shard: set by a check that runs in single-threaded shard
+// processes (then every exploration also runs with one worker goroutine).
+var DefaultShard, DefaultShards int
 
 type Stats struct {
 	Executions     int64
@@ -87,6 +95,7 @@ type Stats struct {
 	Complete       bool  // all levels up to Bound (or the full product) were executed
 	BeyondBound    int64 // executions done in the level that was cut short
 	PerLevel       []int64
+	Level1         string // number and hash of the level-1 vectors before sharding (must be the same in every shard process)
 }
 
 // Explore runs body for every choice vector within the bound.  body is called concurrently from
@@ -97,6 +106,9 @@ func Explore(cfg Config, body func(c *Chooser, worker int)) Stats {
 	}
 	if cfg.MaxLevelWidth == 0 {
 		cfg.MaxLevelWidth = 4 << 20
+	}
+	if cfg.Shards == 0 && DefaultShards > 0 {
+		cfg.Shard, cfg.Shards, cfg.Workers = DefaultShard, DefaultShards, 1
 	}
 	var st Stats
 	st.BoundCompleted = -1
@@ -168,6 +180,21 @@ func Explore(cfg Config, body func(c *Chooser, worker int)) Stats {
 		st.BoundCompleted = d
 		if overflow {
 			return st
+		}
+		if d == 0 && cfg.Shards > 0 {
+			// subtree sharding: this shard keeps every Shards-th level-1 vector (one worker: the order is deterministic)
+			h := fnv.New64a()
+			for _, v := range next {
+				fmt.Fprint(h, v)
+			}
+			st.Level1 = fmt.Sprintf("%d vectors, hash %x", len(next), h.Sum64())
+			var mine [][]int
+			for i, v := range next {
+				if i%cfg.Shards == cfg.Shard {
+					mine = append(mine, v)
+				}
+			}
+			next = mine
 		}
 		level = next
 	}
